@@ -505,6 +505,8 @@ func (p *Prod) Source() string {
 			sb.WriteString(" PosMixin;")
 		case q.PosStyle == 3 && q.HasPos:
 			sb.WriteString(" PosDeep2;")
+		case q.PosStyle == 5 && q.HasPos:
+			sb.WriteString(" Pos lexer.Position; EndPos NamedPos; Tokens []lexer.Token;")
 		case q.PosStyle == 2 && q.HasPos:
 			sb.WriteString(" Pos NamedPos; EndPos NamedPos; Tokens []lexer.Token;")
 		default:
